@@ -801,6 +801,9 @@ class TextIOPayload(IOBasePayload):
 
         """
         self._set_or_restore_start_position()
+        # One incremental encoder per write: a codec with a byte-order mark
+        # (utf-16, utf-32, utf-8-sig) emits it once, not in front of every block.
+        self._encoder = codecs.getincrementalencoder(self._encoding or "utf-8")()
         size = self.size
         chunk = self._value.read(
             min(
@@ -809,7 +812,7 @@ class TextIOPayload(IOBasePayload):
                 remaining_content_len or DEFAULT_CHUNK_SIZE,
             )
         )
-        return size, chunk.encode(self._encoding) if self._encoding else chunk.encode()
+        return size, self._encoder.encode(chunk) if chunk else b""
 
     def _read(self, remaining_content_len: int | None) -> bytes:
         """
@@ -830,7 +833,8 @@ class TextIOPayload(IOBasePayload):
 
         """
         chunk = self._value.read(remaining_content_len or DEFAULT_CHUNK_SIZE)
-        return chunk.encode(self._encoding) if self._encoding else chunk.encode()
+        # "".encode("utf-16") is a BOM, not b"": the end of the text ends the body.
+        return self._encoder.encode(chunk) if chunk else b""
 
     def decode(self, encoding: str = "utf-8", errors: str = "strict") -> str:
         """
